@@ -69,6 +69,16 @@ def make_scenario(spec, seed, idx):
         knobs['container'] = 'bytes'
     if r.random() < 0.2:
         knobs['istring'] = r.choice((1, 4, 255))
+    if r.random() < 0.2:
+        # transfers take time, and not always the same time
+        knobs['latency'] = [r.choice((0, 200, 1000, 1000, 2000, 3000, 5000, 6000)) for _ in range(r.randint(2, 7))]
+    if r.random() < 0.15:
+        knobs['fwname'] = r.choice(('-', 'firm ware.bin', 'fw.bin.dfu', '\u00fc.bin', 'fw', 'FW.BIN'))
+        knobs['relname'] = True
+    if r.random() < 0.05:
+        knobs['fifo'] = True
+    if r.random() < 0.08:
+        knobs['platform'] = 'win32'
     scen = {'config': 'fault-free', 'variant': variant,
             'pad': r.choice(('3CJ', 'ABZ', '00Q9', 'zz7', 'GDX1YZ', '\u00e9BJ', '\u00e98K', '\u00f14Q', '\u4e2d6Z', 'B8J', '64K')),
             'device_id': r.choice(('28e9:0189', '28e9:0189', '28E9:0189', '0x28e9:0x0189', '28e9:189', '028E9:00189')),
